@@ -362,7 +362,7 @@ package http2
 // ---------------------------------------------------------------------------
 
 //@ func readInt
-//@ props C03 C16 C17
+//@ props C03 C16 C17 C01 C02
 //@ requires nbits: 1 <= n && n <= 8
 //@ pure
 //@ loop 0: unroll 12
@@ -376,7 +376,7 @@ package http2
 //@ ensures keep: r2 != nil ==> sameslice(r0, b)
 
 //@ func appendInt
-//@ props C04
+//@ props C04 C01 C02
 //@ # HPACK uses prefixes of 4 to 7 bits (RFC 7541 section 6); every call site passes one of those
 //@ requires nbits: 4 <= bits && bits <= 7
 //@ cases bits == 4; bits == 5; bits == 6; bits == 7
@@ -410,7 +410,7 @@ package http2
 //@ macro hpackOK(hp) = hp != nil && forall(i, 0, len(hp.dynamic), hp.dynamic[i] != nil)
 
 //@ func (*HPACK).peek
-//@ props C03 C16 C17
+//@ props C03 C16 C17 C01 C02
 //@ opt wrapsigned=true
 //@ requires recv: hp != nil
 //@ pure
@@ -515,7 +515,7 @@ package http2
 //@ ensures nonnil: r0 != nil
 
 //@ func readString
-//@ props C03 C16 C17
+//@ props C03 C16 C17 C01 C02
 //@ modifies capacity(dst)
 //@ let b0 = old(b)
 //@ let n = spec.intVal(b0, 7)
@@ -586,14 +586,14 @@ package http2
 //@ macro tsize(hp, i) = spec.ssum(lenmap(HeaderField.key), lenmap(HeaderField.value), hp.dynamic, i)
 
 //@ func (*HPACK).DynamicSize
-//@ props C03 C04
+//@ props C03 C04 C01 C02
 //@ requires tbl: hpackOK(hp)
 //@ pure
 //@ loop 0: invariant acc: n + tsize(hp, rangeindex + 1) == tsize(hp, 0) && n >= 0
 //@ ensures sum: n == tsize(hp, 0)
 
 //@ func (*HPACK).shrink
-//@ props C03 C04
+//@ props C03 C04 C01 C09 C02
 //@ requires tbl: hpackOK(hp)
 //@ # evicted entries go back to the pool: their fields are reset, nothing else about other fields is promised
 //@ modifies hp.dynamic, contents(hp.dynamic), family(HeaderField)
@@ -611,7 +611,7 @@ package http2
 //@ ensures place: dynplace(hp)
 
 //@ func (*HPACK).addDynamic
-//@ props C03 C04
+//@ props C03 C04 C01 C09 C02
 //@ requires tbl: hpackOK(hp) && hf != nil
 //@ modifies hp.dynamic, capacity(hp.dynamic), family(HeaderField)
 //@ let ev = len(old(hp.dynamic)) + 1 - len(hp.dynamic)
@@ -623,7 +623,7 @@ package http2
 //@ ensures place: dynplace(hp)
 
 //@ func (*HPACK).SetMaxTableSize
-//@ props C04 C18
+//@ props C04 C18 C01 C02
 //@ requires tbl: hpackOK(hp)
 //@ modifies hp.maxTableSizeSettings, hp.maxTableSize, hp.pendingSizeUpdate, hp.dynamic, contents(hp.dynamic), family(HeaderField)
 //@ ensures limit: hp.maxTableSize == size && hp.maxTableSizeSettings == size
@@ -638,7 +638,7 @@ package http2
 //@ macro tblsep(hp, hf) = forall(i, 0, len(hp.dynamic), hfsep(hf, hp.dynamic[i])) && forall(i, 0, 61, hfsep(hf, staticTable[i]))
 
 //@ func (*HPACK).nextField
-//@ props C03 C01 C16 C17
+//@ props C03 C01 C16 C17 C02 C09
 //@ requires tbl: hpackOK(hp) && hf != nil
 //@ modifies hf.key, capacity(hf.key), hf.value, capacity(hf.value), hf.sensible, hp.maxTableSize, hp.dynamic, capacity(hp.dynamic), family(HeaderField), anybytes()
 //@ opt noframe=true
@@ -679,7 +679,7 @@ package http2
 //@ ensures eq: r0 <==> (len(a) == len(b) && forall(i, 0, len(a), a[i] == b[i]))
 
 //@ func (*HPACK).search
-//@ props C04
+//@ props C04 C01 C02
 //@ requires tbl: hpackOK(hp) && hf != nil
 //@ pure
 //@ loop 0: invariant idx: n == 0 && !fullMatch
@@ -691,7 +691,7 @@ package http2
 //@ ensures dynfull: r0 >= 62 ==> r1
 
 //@ func appendString
-//@ props C04
+//@ props C04 C01 C02
 //@ modifies capacity(dst)
 //@ # frame and prefix preservation are not claimed here: they need src, dst and the pooled scratch buffer to be
 //@ # separate arrays, which no caller-visible precondition states yet
@@ -703,7 +703,7 @@ package http2
 //@ ensures hbit: encode ==> r0[o] >= 128
 
 //@ func (*HPACK).AppendHeader
-//@ props C04 C18
+//@ props C04 C18 C01 C02
 //@ requires tbl: hpackOK(hp) && hf != nil
 //@ split hf.sensible, store, hp.pendingSizeUpdate
 //@ modifies capacity(dst), hp.pendingSizeUpdate, hp.dynamic, capacity(hp.dynamic), family(HeaderField), anybytes()
@@ -1266,7 +1266,7 @@ package http2
 //@ ensures rst: fr.kind == 3 ==> err != nil
 
 //@ func (*HPACK).Next
-//@ props C03 C16 C17
+//@ props C03 C16 C17 C02 C01
 //@ requires tbl: hpackOK(hp) && hf != nil
 //@ modifies hf.key, capacity(hf.key), hf.value, capacity(hf.value), hf.sensible, hp.maxTableSize, hp.dynamic, capacity(hp.dynamic), family(HeaderField), anybytes()
 //@ opt noframe=true
@@ -1294,10 +1294,18 @@ package http2
 //@ assert@call:(*ResponseHeader).AddBytesKV#1 regular: lower(hf.key) && !connspecific(hf.key) && (len(hf.key) == 0 || hf.key[0] != ':')
 //@ ensures decok: hpackOK(c.dec)
 
+//@ func (*Conn).signalWindow
+//@ props C07
+//@ requires recv: c != nil
+//@ opt noframe=true
+//@ modifies nothing
+
 //@ func (*Conn).addWindow
 //@ props C07
 //@ requires recv: c != nil
 //@ # (an increment is 31 bits wide on the wire; nothing here depends on it)
+//@ # every credit, for a stream or for the connection, wakes the write loop: a body blocked on that window is resumed (C07)
+//@ ensures woken: called((*Conn).signalWindow) == 1
 //@ opt noframe=true
 //@ opt wrapsigned=true
 //@ modifies c.connWindow, family(pendingBody)
@@ -1527,6 +1535,20 @@ package http2
 
 //@ func (*serverConn).handleStreams.markClosed
 //@ inline
+//@ props C08 C13
+//@ # (verified on its own as well as inlined) The ring of the last 256 closed stream ids: a new id is appended while there
+//@ # is room; once the ring is full it takes the place of the oldest one - the very slot whose id has just been forgotten -
+//@ # and the next slot becomes the oldest. Nothing else moves. (Whether the id was already there is the map's business,
+//@ # which the model does not see: then nothing changes.)
+//@ requires ring: ringOK(closedRing, closedOldest)
+//@ opt noframe=true
+//@ ensures step: (sameslice(closedRing, old(closedRing)) && closedOldest == old(closedOldest) && closedRing == old(closedRing)) ||
+//@ |   (len(old(closedRing)) < 256 && len(closedRing) == len(old(closedRing)) + 1 && closedRing[len(old(closedRing))] == id &&
+//@ |      closedOldest == old(closedOldest) && closedRing[:len(old(closedRing))] == old(closedRing)) ||
+//@ |   (len(old(closedRing)) >= 256 && len(closedRing) == len(old(closedRing)) && closedRing[old(closedOldest)] == id &&
+//@ |      closedOldest == (old(closedOldest) + 1) % 256 &&
+//@ |      forall(i, 0, len(closedRing), i != old(closedOldest) ==> closedRing[i] == old(closedRing)[i]))
+//@ ensures ok: ringOK(closedRing, closedOldest)
 
 //@ func (*serverConn).handleStreams.releaseStream
 //@ inline
@@ -1762,6 +1784,8 @@ package http2
 //@ requires recv: c != nil
 //@ opt noframe=true
 //@ modifies nothing
+//@ # an entry is passed over only if its stream is above last: the stream the GOAWAY named itself counts as promised
+//@ loop 0: step skipped: id > last
 
 //@ func (*Conn).dispatch
 //@ props C11 C02
